@@ -155,7 +155,9 @@ def check_pair(ctx, su: Setup, a: int, b: int):
     for lvl in range(a, b):
         expect *= su.n if lvl == -1 else (5 if lvl == 0 else 4)
     total = lst.length()
-    if total == expect:
+    if total is None:
+        ctx.unk("C06.3", f"{tag}: number of children", where, "the length of the returned list is not determined")
+    elif total == expect:
         ctx.ok("C06.3", f"{tag}: {total} children (12, 5, then 4 per level)", where,
                f"loop trip counts {[[cnt for _, cnt in s.binders] for s in lst.segs]}")
     else:
@@ -446,7 +448,8 @@ def check_children_guards(ctx, su: Setup, a: int):
         r2, _ = children_family(interp, c, Lin(a + 1))
         if len(r1) == 1 and len(r2) == 1 and isinstance(r1[0].value, ListV) and isinstance(r2[0].value, ListV):
             same = r1[0].value.length() == r2[0].value.length()
-            ctx.ob("C06.3", f"{Q}.cell_to_children(res {a}) default is one level down", core.DISCHARGED if same else core.VIOLATED,
+            known_ = r1[0].value.length() is not None and r2[0].value.length() is not None
+            ctx.ob("C06.3", f"{Q}.cell_to_children(res {a}) default is one level down", core.UNDECIDED if not known_ else (core.DISCHARGED if same else core.VIOLATED),
                    core.loc(SER, r1[0].node), f"{r1[0].value.length()} vs {r2[0].value.length()} children")
 
 
@@ -493,8 +496,9 @@ def run(ctx):
                 outs = su.interp.run_function(SER, "get_res0_cells", [])
                 if len(outs) == 1 and outs[0].kind == "return" and isinstance(outs[0].value, ListV):
                     n = outs[0].value.length()
-                    rec.ob("C06.3", f"{Q}.get_res0_cells lists {n} cells", core.DISCHARGED if n == su.n else core.VIOLATED,
-                           core.loc(SER, outs[0].node), f"expected one per face ({su.n})")
+                    rec.ob("C06.3", f"{Q}.get_res0_cells lists {n} cells" if n is not None else f"{Q}.get_res0_cells: number of cells",
+                           core.UNDECIDED if n is None or outs[0].state.path else (core.DISCHARGED if n == su.n else core.VIOLATED),
+                           core.loc(SER, outs[0].node), f"expected one per face ({su.n})" + ("" if n is not None else "; the length of the returned list is not determined"))
         except (Budget, _Unmodelled) as e:
             rec.unk("C06.0", f"{Q}: interpretation stopped in task {task}", SER, f"{type(e).__name__}: {e}")
         return rec.obligations, su.raising, npairs, su.interp.total_steps + su.interp.steps
